@@ -89,3 +89,18 @@ def gen_classification(rng, n_classes=None, n_features=None, per_class=None):
     X = np.array(X, dtype=float)[idx]
     y = np.array(y)[idx]
     return X, y
+
+
+def laid_out(X, layout):
+    """a fresh array with X's values (and dtype) in the given memory layout: 'C', 'F', 'T' (transposed view of a C array),
+    'strided' (every other row/column of a larger array)"""
+    ne, nf = X.shape
+    if layout == "F":
+        return np.asfortranarray(X.copy())
+    if layout == "T":
+        return np.ascontiguousarray(X.T.copy()).T
+    if layout == "strided":
+        big = np.zeros((2 * ne, 2 * nf), dtype=X.dtype)
+        big[::2, ::2] = X
+        return big[::2, ::2]
+    return X.copy()
